@@ -67,6 +67,7 @@ type simAdapter struct {
 	enqIDs   []string // job ids in the order the adapter stored them (parsed from the bytes)
 	deliveredBad []bool // per delivered corrupted entry: might it still decode?
 	notifies []int // per subscriber: delivered notifications
+	notifyAt [][]uint64 // per subscriber: when each one was delivered
 	lostRace int
 }
 
@@ -385,7 +386,11 @@ func (n *notifyTask) run() {
 		return // the subscriber's process is dead
 	}
 	n.a.notifies[n.i]++
-	n.a.root.rec.stamp()
+	at := n.a.root.rec.stamp()
+	for len(n.a.notifyAt) <= n.i {
+		n.a.notifyAt = append(n.a.notifyAt, nil)
+	}
+	n.a.notifyAt[n.i] = append(n.a.notifyAt[n.i], at)
 	n.a.subs[n.i]("enqueued")
 }
 
